@@ -365,6 +365,10 @@ pub fn run_case<G: AffineRepr>(c: &R1csCase<G>, curve: &str, modulus: &str) -> C
                 let vcode = result_code(&vr.verdict);
                 out_verdict = vcode;
                 line(15, vec![vcode.to_string()]);
+                // after an accepted run on the prover's own statement both parties' transcripts must be in the same state
+                if vcode == 0 && c.muts.is_empty() && c.forge.is_none() && c.vprog.is_none() && c.vcommit.is_empty() && c.vbases.is_none() && c.vlabel == c.label {
+                    line(22, vec![((pr.followup == vr.followup && !pr.followup.is_empty()) as u8).to_string()]);
+                }
                 if vr.verdict.is_err() || vr.scalars.is_err() {
                     let _ = writeln!(obs.borrow_mut(), "{} 98 {}", id, vr.panic_msg.replace('\n', " "));
                 }
@@ -836,6 +840,36 @@ pub fn gen_cases<G: AffineRepr>(seed: u64, tier: &str, stream: &str, curve_idx: 
                 c.tag = format!("manycons pair={} total={}", q, total);
                 out.push(c);
             }
+            // a violated constraint stated BEFORE the variable it mentions exists (committed later / allocated later):
+            // by the time of proving every mentioned variable exists, so the constraint counts like any other
+            "forwardref" => {
+                if k >= 6 { continue; }
+                let v0 = F::<G>::rand(&mut rng);
+                let v1 = F::<G>::rand(&mut rng);
+                let e = if k % 2 == 0 { F::<G>::from(1u64) } else { F::<G>::zero() };
+                let (l, r) = (F::<G>::rand(&mut rng), F::<G>::rand(&mut rng));
+                let mut prog: Vec<COp<F<G>>> = vec![COp::Commit(v0, F::<G>::rand(&mut rng))];
+                match k / 2 {
+                    0 => {
+                        prog.push(COp::Constrain(vec![(V::Committed(1), Sx::C(F::<G>::from(1u64))), (V::One, Sx::C(-(v1 + e)))]));
+                        prog.push(COp::Commit(v1, F::<G>::rand(&mut rng)));
+                        prog.push(COp::AllocMul(Some((l, r))));
+                    }
+                    1 => {
+                        prog.push(COp::Constrain(vec![(V::Left(0), Sx::C(F::<G>::from(1u64))), (V::One, Sx::C(-(l + e)))]));
+                        prog.push(COp::AllocMul(Some((l, r))));
+                    }
+                    _ => {
+                        // a first-phase constraint on a second-phase gate
+                        prog.push(COp::AllocMul(Some((l, r))));
+                        prog.push(COp::Constrain(vec![(V::Out(1), Sx::C(F::<G>::from(1u64))), (V::One, Sx::C(-(l * r + e)))]));
+                        prog.push(COp::Randomize(vec![ROp::AllocMul(Some((Sx::C(l), Sx::C(r))))]));
+                    }
+                }
+                let mut c = R1csCase::plain(id, prog, 2, 2, rng.gen());
+                c.tag = format!("forwardref kind={} violated={}", k / 2, (k % 2 == 0) as u8);
+                out.push(c);
+            }
             // capacity grid (C17): fixed program per (n1, n2), every capacity pair
             "capgrid" => {
                 let g: usize = if thorough { 5 } else { 3 };
@@ -909,7 +943,8 @@ pub fn gen_cases<G: AffineRepr>(seed: u64, tier: &str, stream: &str, curve_idx: 
                 let n = (g.n1 + g.n2).next_power_of_two().max(1);
                 let sa: u64 = rng.gen();
                 let sb: u64 = rng.gen();
-                for (j, sd) in [sa, sa, sb, sa, sa, sa, sa].iter().enumerate() {
+                let hi: u64 = 1 << 63;
+                for (j, sd) in [sa, sa, sb, sa, sa, sa, sa, hi | (sa >> 1), hi | (sb >> 1)].iter().enumerate() {
                     let mut prog = g.prog.clone();
                     if j == 3 {
                         for op in prog.iter_mut() {
